@@ -52,6 +52,7 @@ type grp struct {
 	timeout  int64
 	firstH   uint64
 	failedAt uint64 // block of the first failure / timeout (0 = none)
+	lastChildSt map[string]int // child id -> status after the previous block
 	failEv   [2]int // (height, tx index) of the failing event; tx index 1<<30 for expiry
 	sawSucc  bool
 }
@@ -74,13 +75,15 @@ func grp05Workload(args []string) int {
 		rng := vlog.CaseRand(a.Seed, "grp05", id)
 		opts := harness.Options{NoAudit: rng.Intn(2) == 0}
 		w.CaseStart(id, map[string]interface{}{"opts": opts})
-		guard(w, "grp05", func() { grp05Case(w, a, id, rng, opts) })
+		guard(w, "grp05", func() { grp05Case(w, a, id, rng, opts, "C05") })
 	}
 	w.End()
 	return 0
 }
 
-func grp05Case(w *vlog.W, a *wargs, id int, rng *rand.Rand, opts harness.Options) {
+// grp05Case runs one generated history of one-to-many groups. prop selects which oracle's findings count:
+// C05 (all-or-nothing, notifications) or C06 (the group as a whole times out exactly at H+T and never otherwise).
+func grp05Case(w *vlog.W, a *wargs, id int, rng *rand.Rand, opts harness.Options, prop string) {
 	fx := filepath.Join(a.Work, fmt.Sprintf("fxe-%v", opts.NoAudit))
 	if _, err := os.Stat(fx); err != nil {
 		wf, err := harness.BuildExtended(fx, opts)
@@ -108,6 +111,12 @@ func grp05Case(w *vlog.W, a *wargs, id int, rng *rand.Rand, opts harness.Options
 	var hist []string
 	seen := map[string]bool{}
 	viol := func(sig, detail string) {
+		if isTimeoutSig := strings.HasPrefix(sig, "timeout-list:") || strings.HasPrefix(sig, "timeout:"); isTimeoutSig != (prop == "C06") {
+			if !strings.HasPrefix(sig, "exec:") {
+				w.Count("other_property_observations", 1)
+				return
+			}
+		}
 		if seen[sig] {
 			return
 		}
@@ -233,6 +242,12 @@ func grp05Case(w *vlog.W, a *wargs, id int, rng *rand.Rand, opts harness.Options
 			return
 		}
 		w.Count("blocks", 1)
+		// what the chains are actually told goes through the router: its delivery sets for this block
+		// (live subscription and replay query) must carry exactly what the executor recorded
+		for _, f := range world.R.TakeRouterFindings() {
+			viol("notify:"+f.Sig, f.Detail)
+		}
+		w.Count("router_blocks_checked", 1)
 		if debug {
 			d := world.R.DumpState()
 			pre := string(harness.AddrTxMgr.Bytes())
@@ -357,6 +372,57 @@ func grp05Case(w *vlog.W, a *wargs, id int, rng *rand.Rand, opts harness.Options
 					if !isFailState(st) {
 						viol("group:child-not-failed:"+model.StName[st], fmt.Sprintf("after block %d (group failed in block %d) child %s still has status %s", h, g.failedAt, c.id(g.from), model.StName[st]))
 					}
+				}
+			}
+			// ---- C06 for the group as a whole: its begun children are listed as timed out for the source
+			// chain exactly once, in block firstH+T, if the group has neither finished nor failed before;
+			// in no other block and for no other group
+			{
+				due := g.timeout > 0 && h == g.firstH+uint64(g.timeout)
+				byTimeoutNow := g.failedAt == h && g.failEv == [2]int{int(h), 1 << 30}
+				listed := map[string]int{}
+				if sl := res.Meta.TimeoutCounter[chainOf(g.from)]; sl != nil {
+					for _, x := range sl.Slice {
+						listed[x]++
+					}
+				}
+				for _, c := range g.children {
+					if !c.begun {
+						continue
+					}
+					n := listed[c.id(g.from)]
+					w.Count("obs_group_timeout_checks", 1)
+					switch {
+					case n > 0 && !(due && byTimeoutNow):
+						why := fmt.Sprintf("its group is not due now (first child begun in block %d, T=%d)", g.firstH, g.timeout)
+						if due {
+							why = fmt.Sprintf("its group had already failed in block %d / finished", g.failedAt)
+						}
+						viol("timeout-list:group-child-listed-but-not-due", fmt.Sprintf("block %d: child %s of group %s is in the timeout notifications of %s although %s", h, c.id(g.from), g.gid, chainOf(g.from), why))
+					case n > 1:
+						viol("timeout-list:group-child-listed-twice", fmt.Sprintf("block %d: child %s of group %s is listed %d times", h, c.id(g.from), g.gid, n))
+					case n == 0 && due && byTimeoutNow:
+						viol("timeout-list:group-child-missing", fmt.Sprintf("block %d: group %s expires now (first child begun in block %d, T=%d) but its child %s is not in the timeout notifications of %s: %v", h, g.gid, g.firstH, g.timeout, c.id(g.from), chainOf(g.from), listed))
+					}
+					if n == 1 && due && byTimeoutNow {
+						w.Count("obs_group_children_timed_out", 1)
+					}
+				}
+				// a group that failed before its timeout height is never touched by the timeout mechanism
+				if g.failedAt != 0 && g.failedAt < h && !byTimeoutNow {
+					for _, c := range g.children {
+						if st, ok := info.ChildTxInfo[c.id(g.from)]; ok && c.begun {
+							if prev, had := g.lastChildSt[c.id(g.from)]; had && prev == model.StBeginFailure && st == model.StBeginRollback {
+								viol("timeout:failed-group-child-altered", fmt.Sprintf("block %d: child %s of group %s (failed in block %d) moved BEGIN_FAILURE -> BEGIN_ROLLBACK", h, c.id(g.from), g.gid, g.failedAt))
+							}
+						}
+					}
+				}
+				if g.lastChildSt == nil {
+					g.lastChildSt = map[string]int{}
+				}
+				for cid, st := range info.ChildTxInfo {
+					g.lastChildSt[cid] = int(st)
 				}
 			}
 			if g.failedAt == h {
